@@ -60,9 +60,30 @@ func genSchedules(c *Check, docLen int, requests string, maxCalls int) [][]strin
 }
 
 type ioDoc struct {
-	Format string // cbe | cte
-	Doc    []byte
-	Desc   string
+	Format       string // cbe | cte
+	Doc          []byte
+	Desc         string
+	TopContainer bool // the top-level value is a container
+}
+
+// topIsContainer: the first value after the header and the record type definitions.
+func topIsContainer(evs []AEv) bool {
+	depth := 0
+	for _, e := range evs {
+		switch {
+		case e.M == "OnBeginDocument" || e.M == "OnVersion" || e.M == "OnPadding" || e.M == "OnComment":
+		case depth > 0:
+			if e.M == "OnEndContainer" {
+				depth--
+			}
+		case e.M == "OnRecordType":
+			depth = 1
+		case e.M == "OnMarker":
+		default:
+			return e.M == "OnList" || e.M == "OnMap" || e.M == "OnNode" || e.M == "OnEdge" || e.M == "OnRecord"
+		}
+	}
+	return false
 }
 
 // ioDocs: valid documents in both formats from the corpus, plus truncated / corrupted ones.
@@ -81,20 +102,20 @@ func ioDocs(c *Check, n int) []ioDoc {
 		mu.Lock()
 		defer mu.Unlock()
 		if rej < 0 {
-			out = append(out, ioDoc{"cbe", b, evsString(evs)})
+			out = append(out, ioDoc{"cbe", b, evsString(evs), topIsContainer(evs)})
 			if len(b) > 4 {
-				out = append(out, ioDoc{"cbe", b[:len(b)-2], "truncated: " + evsString(evs)})
+				out = append(out, ioDoc{"cbe", b[:len(b)-2], "truncated: " + evsString(evs), false})
 			}
 		}
 		if rej2 < 0 {
-			out = append(out, ioDoc{"cte", t, evsString(evs)})
+			out = append(out, ioDoc{"cte", t, evsString(evs), topIsContainer(evs)})
 			if len(t) > 6 {
-				out = append(out, ioDoc{"cte", t[:len(t)-3], "truncated: " + evsString(evs)})
+				out = append(out, ioDoc{"cte", t[:len(t)-3], "truncated: " + evsString(evs), false})
 			}
 		}
 	})
-	out = append(out, ioDoc{"cbe", []byte{0x81, 0}, "header only"}, ioDoc{"cbe", []byte{0x81}, "signature only"}, ioDoc{"cte", []byte("c0"), "header only"},
-		ioDoc{"cte", []byte("c0 12345"), "number"}, ioDoc{"cbe", []byte{0x81, 0, 0x6c, 0x78, 0x56, 0x34, 0x12}, "int32"})
+	out = append(out, ioDoc{"cbe", []byte{0x81, 0}, "header only", false}, ioDoc{"cbe", []byte{0x81}, "signature only", false}, ioDoc{"cte", []byte("c0"), "header only", false},
+		ioDoc{"cte", []byte("c0 12345"), "number", false}, ioDoc{"cbe", []byte{0x81, 0, 0x6c, 0x78, 0x56, 0x34, 0x12}, "int32", false})
 	return out
 }
 
